@@ -104,7 +104,7 @@ class Track:
 _CFG_TABLE = None
 # the widened API surface (lattice functions, typed configuration calls, held sub-objects, two decoders, MLLR, log file)
 # is generated only when the model driver understands it
-EXTENDED = os.environ.get("C09_EXTENDED", "0") == "1"
+EXTENDED = os.environ.get("C09_EXTENDED", "1") == "1"
 
 
 def config_table():
@@ -112,7 +112,8 @@ def config_table():
     global _CFG_TABLE
     if _CFG_TABLE is None:
         txt = (vlib.REPO / "include" / "soundswallower" / "config_defs.h").read_text()
-        ents = re.findall(r'\{\s*"([a-z_0-9]+)",\s*\\?\s*((?:REQ)?ARG_[A-Z]+),', txt)
+        txt = txt.replace("\\\n", "\n")          # line continuations of the macro bodies
+        ents = re.findall(r'\{\s*"([a-z_0-9]+)",\s*((?:REQ)?ARG_[A-Z]+),', txt)
         tmap = {"INTEGER": "int", "FLOATING": "float", "STRING": "str", "BOOLEAN": "bool"}
         _CFG_TABLE = {n: tmap[t.split("_")[-1]] for n, t in ents}
     return _CFG_TABLE
@@ -215,6 +216,7 @@ def gen_history(rng, stats, maxcalls=40, profile=None):
     else:
         profile = profile or rng.weighted([("mixed", 46), ("queries", 18), ("lifecycle", 14), ("outoforder", 14), ("longaudio", 8)])
     stats["profiles"][profile] = stats["profiles"].get(profile, 0) + 1
+    stats["last_profile"] = profile
     smalldict = rng.chance(0.7)
 
     def emit(s, kind):
@@ -855,92 +857,192 @@ def st_field(st, key):
 
 
 IDBASE = {"seg": 0, "hyp": 100, "ali": 200}
+# a configuration whose decoder_init fails before the grammar is looked at is modelled as `fails`
+
 INIT_MAP = {"jsgf": "1 good 0", "fsg": "0 good 0", "none": "0 none 0", "nojsgf": "1 bad 0", "nofsg": "0 bad 0",
             "badhmm": "0 none 1", "null": "0 none 1"}
+
+
+def strval_class(v):
+    """class of a string value for the parsers of anytype_from_str (mirrors `StrVal` of the model)"""
+    if v == "NULL":
+        return "null"
+    if v == "EMPTY":
+        return "empty"
+    if not v:
+        return "junk"
+    if v[0] in "01":
+        return "numbool"
+    if re.match(r"[+-]?\d", v):
+        return "num"
+    if v[0] in "yYtTnNfF":
+        return "boolword"
+    return "junk"
+
+
+def config_call_model(w):
+    """w = <setter|get|...> key [value]  ->  (key type, model op tokens, safe?)"""
+    tab = config_table()
+    op = w[0]
+    key = w[1] if len(w) > 1 else ""
+    val = w[2] if len(w) > 2 else ""
+    kt = tab.get(key, "unknown")
+    if op == "json":
+        return "unknown", "json", True
+    if op == "parse":
+        return "unknown", None, False          # outcome taken from the implementation
+    if op in ("get", "typeof", "same"):
+        return kt, op, True
+    if kt == "unknown":
+        return kt, {"str": "setstr " + strval_class(val), "int": "setint", "float": "setfloat", "bool": "setbool"}.get(op, op), True
+    safe_key = key in SAFE_F or key in SAFE_B or key in SAFE_I or key in SAFE_S
+    if op == "str":
+        return kt, "setstr " + strval_class(val), (not str_accepts(kt, val)) or safe_key
+    if op in ("int", "float", "bool"):
+        return kt, "set" + op, safe_key
+    if op in ("unset", "setnull"):
+        return kt, op, safe_key
+    return kt, op, False
 
 
 def to_model(call, ret, st):
     """one transcript entry -> model call line (None = not a call of the model)"""
     w = call.split()
+    inst = "a"
+    if w and w[0].startswith("@"):
+        inst = "b" if w[0] == "@1" else "a"
+        w = w[1:]
+    if not w:
+        return None
     r0 = ret.split()[0]
     ptr = r0 == "ptr"
-    a_after = st_field(st, "a") == "1"
-    g_after = st_field(st, "g") == "1"
+    parts = (st or "").split(" || ")
+    mine = parts[1 if inst == "b" and len(parts) > 1 else 0] if parts else ""
+    a_after = st_field(mine, "a") == "1"
+    g_after = st_field(mine, "g") == "1"
     op = w[0]
+    D = f"dec {inst} "
+
+    def src_of(x):
+        return "dec" if x == "-1" else x
     if op == "init":
-        return "init " + INIT_MAP[w[1]]
+        return f"init {inst} new " + INIT_MAP[w[1]]
+    if op == "initcfg":
+        return f"init {inst} held {w[1]}"
     if op == "reinit":
         if w[1] in ("null", "same"):
-            return "reinit keep"
-        return "reinit new " + " ".join(INIT_MAP[w[1]].split()[:2])
-    if op in ("retain", "free", "start", "prob", "nframes", "times", "freenull"):
-        return op
-    if op == "cfg":
-        if w[1] == "str" and w[2] in ("jsgf", "fsg"):
-            v = w[3]
+            return f"reinit {inst} keep"
+        return f"reinit {inst} new " + " ".join(INIT_MAP[w[1]].split()[:2])
+    if op == "reinitcfg":
+        return f"reinit {inst} held {w[1]}"
+    if op in ("retain", "free", "start", "prob", "nframes", "times", "freenull", "reinitfeat"):
+        return D + op
+    if op in ("cfg", "cfgk"):
+        tgt = f"dec {inst}" if op == "cfg" else f"held {w[1]}"
+        cw = w[1:] if op == "cfg" else w[2:]
+        if cw[0] == "str" and cw[1] in ("jsgf", "fsg"):
+            v = cw[2]
             g = "none" if v == "NULL" else ("bad" if "nonexistent" in v else "good")
-            return f"cfggram {b(w[2] == 'jsgf')} {g}"
-        # config_set_*: NULL for an unknown parameter and for an empty string value (anytype_from_str)
-        return f"cfgother {b(w[2] != 'nosuchkey' and not (len(w) > 3 and w[3] == 'EMPTY'))}"
+            if v == "EMPTY":
+                return f"cfgcall {tgt} str 1 setstr empty"
+            return f"cfggram {tgt} {b(cw[1] == 'jsgf')} {g}"
+        kt, mop, safe = config_call_model(cw)
+        if mop is None:
+            mop = f"parse {b(ptr)}"
+        return f"cfgcall {tgt} {kt} {b(safe)} {mop}"
+    if op == "subretain":
+        return f"cfgretaindec {inst} {w[2]}" if w[1] == "cfg" else f"subretain {inst} {w[1]} {w[2]}"
+    if op == "cfgnew":
+        return f"cfgnew {w[1]} " + " ".join(INIT_MAP[w[2]].split()[:2])
+    if op == "cfgretain":
+        return f"cfgretainheld {w[1]} {w[2]}"
+    if op == "subuse":
+        return f"cfguse {w[2]}" if w[1] == "cfg" else f"subuse {w[1]} {w[2]}"
+    if op == "subfree":
+        return f"cfgfree {w[2]}" if w[1] == "cfg" else f"subfree {w[1]} {w[2]}"
+    if op == "logfile":
+        return D + "logfile " + (w[1] if w[1] in ("null", "bad") else "file")
+    if op == "mllrread":
+        return f"mllrread {w[1]} {b(w[2] == 'id')}"
+    if op == "mllrapply":
+        if w[1] == "null":
+            return f"mllrapplynull {inst}"
+        return f"mllrapply {inst} {w[1]} {b(len(w) > 2 and w[2] == 'keep')}"
+    if op == "mllrfree":
+        return f"mllrfree {w[1]}"
     if op == "proc":
         adv = "adv=1" in ret
-        return f"proc {w[6]} {b(adv)}"
+        return D + f"proc {w[6]} {b(adv)}"
     if op == "end":
-        return f"end {b('adv=1' in ret)}"
+        return D + f"end {b('adv=1' in ret)}"
     if op == "hyp":
-        return f"hyp {b(ptr)}"
+        return D + f"hyp {b(ptr)}"
     if op == "seg":
-        return f"seg {w[1]} {b(ptr)}"
-    # the harness has one handle table per iterator type, the model one table: seg k, hyp 100+k, alignment 200+k
+        return D + f"seg {w[1]} {b(ptr)}"
+    # the harness has one handle table per iterator type, the model one table: seg k, hyp 100+k, alignment 200+k,
+    # lattice node 300+k, lattice link 400+k
     if op in ("segnext", "hypnext", "alinext"):
-        return f"{op} {IDBASE[op[:3]] + int(w[1])} {b(not ptr)}"
+        return D + f"{op} {IDBASE[op[:3]] + int(w[1])} {b(not ptr)}"
     if op in ("segfree", "hypfree", "alifree"):
-        return f"{op} {IDBASE[op[:3]] + int(w[1])}"
+        return D + f"{op} {IDBASE[op[:3]] + int(w[1])}"
     if op in ("latwalk", "latfree", "alfree"):
-        return f"{op} {w[1]}"
+        return D + f"{op} {w[1]}"
     if op == "nbest":
-        return f"nbest {100 + int(w[1])} {b(g_after)} {b(ptr)}"
+        return D + f"nbest {100 + int(w[1])} {b(g_after)} {b(ptr)}"
     if op == "hypseg":
-        return f"hypseg {w[1]} {100 + int(w[2])} {b(ptr)}"
+        return D + f"hypseg {w[1]} {100 + int(w[2])} {b(ptr)}"
     if op == "lattice":
-        return f"lattice {b(ptr)}"
+        return D + f"lattice {b(ptr)}"
     if op == "latbest":
-        return f"latbest {b(g_after)} {b(ptr)}"
+        src = src_of(w[1]) if len(w) > 1 else "dec"
+        return D + f"latbest {src} {b(g_after if src == 'dec' else True)} {b(ptr)}"
+    if op == "latprune":
+        src = src_of(w[1])
+        return D + f"latprune {src} {b(g_after if src == 'dec' else True)} {b(r0.startswith('n='))}"
+    if op == "lattrav":
+        src = src_of(w[1])
+        return D + f"lattrav {src} {b(r0 != 'null')}"
+    if op == "lnode":
+        return D + f"lnode {300 + int(w[1])} {src_of(w[2])} {b('lat=1' in ret)} {b(ptr)}"
+    if op in ("lnodenext", "llinknext"):
+        return D + f"{op} {(300 if op[1] == 'n' else 400) + int(w[1])} {b(not ptr)}"
+    if op in ("lnodefree", "llinkfree"):
+        return D + f"{op} {(300 if op[1] == 'n' else 400) + int(w[1])}"
+    if op == "llink":
+        return D + f"llink {400 + int(w[1])} {300 + int(w[2])} {b(ptr)}"
     if op == "latretain":
-        return f"latretain {w[1]} {b(ptr)}"
+        return D + f"latretain {w[1]} {b(ptr)}"
     ru = "ru=1" in ret
     if op == "align":
-        return f"align {b(ru)} {b(ptr)} {b(a_after)}"
+        return D + f"align {b(ru)} {b(ptr)} {b(a_after)}"
     if op == "alretain":
-        return f"alretain {w[1]} {b(ru)} {b(ptr)} {b(a_after)}"
+        return D + f"alretain {w[1]} {b(ru)} {b(ptr)} {b(a_after)}"
     if op == "aliter":
         src = "dec" if w[2] == "-1" else w[2]
         al = "al=1" in ret
-        return f"aliter {200 + int(w[1])} {src} {b(ru)} {b(al)} {b(a_after)} {b(ptr)}"
+        return D + f"aliter {200 + int(w[1])} {src} {b(ru)} {b(al)} {b(a_after)} {b(ptr)}"
     if op == "alichild":
-        return f"alichild {200 + int(w[1])} {200 + int(w[2])} {b(ptr)}"
+        return D + f"alichild {200 + int(w[1])} {200 + int(w[2])} {b(ptr)}"
     if op == "aligoto":
-        return f"aligoto {200 + int(w[1])} {b(not ptr)}"
+        return D + f"aligoto {200 + int(w[1])} {b(not ptr)}"
     if op == "json":
-        return f"json {w[1]} {b(ru)} {b(ptr)} {b(a_after)}"
+        return D + f"json {w[1]} {b(ru)} {b(ptr)} {b(a_after)}"
     if op == "getcmn":
-        return "getcmn"
+        return D + "getcmn"
     if op == "setcmn":
-        return "setcmn"
+        return D + "setcmn"
     if op == "lookup":
-        return f"lookup {b(ptr)}"
+        return D + f"lookup {b(ptr)}"
     if op == "addword":
-        return f"addword {w[3]} {b(r0.startswith('n='))}"
+        return D + f"addword {w[3]} {b(r0.startswith('n='))}"
     if op == "jsgf":
-        return f"setgrammar {b(w[1] not in GRAM_BAD_ALL)}"
+        return D + f"setgrammar {b(w[1] not in GRAM_BAD_ALL)}"
     if op == "jsgffile":
-        return f"setgrammar {b(w[1] == 'good')}"
+        return D + f"setgrammar {b(w[1] == 'good')}"
     if op == "fsg":
-        return f"setgrammar {b(w[1] not in FSG_BAD)}"
+        return D + f"setgrammar {b(w[1] not in FSG_BAD)}"
     if op == "aligntext":
-        return f"setgrammar {b(w[1] not in ALIGN_BAD)}"
-    if op == "exit":
-        return None
+        return D + f"setgrammar {b(w[1] not in ALIGN_BAD)}"
     return None
 
 
@@ -997,14 +1099,15 @@ def prepare_scratch(dirpath):
     open(os.path.join(SCRATCH_DIR, "mllr-bad.txt"), "w").write("this is not an MLLR transform\n")
 
 
-def pin_harness(dirpath):
+def pin_harness(dirpath, pool=False):
     """private copy of the harness binary (statically linked with the library): other checks prune
-    .build/repo/* while this one is running"""
+    .build/repo/* while this one is running.  pool=True: the flavour whose element pool is one heap block per
+    element (-DVF_PASSTHROUGH_POOL), so that ASan sees stale lattice nodes / links / A* paths"""
     import shutil, time
     for _ in range(5):
         try:
-            src = vlib.build_harness("h_c09")
-            dst = os.path.join(str(dirpath), "h_c09")
+            src = vlib.build_harness("h_c09", extra_flags=("-DVF_PASSTHROUGH_POOL",)) if pool else vlib.build_harness("h_c09")
+            dst = os.path.join(str(dirpath), "h_c09p" if pool else "h_c09")
             shutil.copy2(str(src), dst)
             return dst
         except FileNotFoundError:
@@ -1063,9 +1166,6 @@ def compare(tr):
             break
         if ret is None:
             break
-        if " || " not in mst:
-            # model of a single decoder (older driver): compare instance 0 only
-            st = re.sub(r" ln=\d+,\d+", "", st.split(" || ")[0])
         if canon_ret(ret) != mret or st != mst:
             div.append(("return class / state differs", i, call, ret, st, m, mret, mst, cls))
             break
@@ -1194,14 +1294,20 @@ def check(c):
     maxcalls = 40 if c.tier == "quick" else 60
     # vlib.Rng streams of neighbouring seeds are shifted copies of each other: derive a decorrelated root
     root = vlib.Rng(((c.seed + 1) * 0x2545F4914F6CDD1D) & (2 ** 64 - 1))
-    hs = [gen_history(root.fork(), stats, maxcalls=maxcalls) for _ in range(n)]
+    hs, on_pool = [], []
+    for i in range(n):
+        hs.append(gen_history(root.fork(), stats, maxcalls=maxcalls))
+        # lattice-heavy histories (and every fifth other one) run on the pass-through-pool flavour
+        on_pool.append(stats["last_profile"] in ("lattice", "queries") or i % 5 == 0)
+    binp_pool = pin_harness(c.scratch, pool=True)
+    stats["histories_on_passthrough_pool"] = sum(on_pool)
     for h in hs[:3]:
         c.samples.append(h[:12] + (["..."] if len(h) > 12 else []))
     # first pass in parallel (pure observation), then judge the failing ones sequentially (shrinking)
     workers = 6
 
     def quick(i):
-        rc, tr, err = run_history(binp, hs[i])
+        rc, tr, err = run_history(binp_pool if on_pool[i] else binp, hs[i])
         return i, rc, tr, err
     bad, distinct, groups = [], set(), {}
     with cf.ThreadPoolExecutor(workers) as ex:
@@ -1240,7 +1346,7 @@ def check(c):
     counted = dict(stats["failures"])
     for key in sorted(groups, key=lambda k: -len(groups[k]))[:14]:
         i = min(groups[key], key=lambda j: len(hs[j]))
-        if not judge(c, binp, hs[i], f"generated history {i}, class {key}", stats, shrink=True):
+        if not judge(c, binp_pool if on_pool[i] else binp, hs[i], f"generated history {i}, class {key}", stats, shrink=True):
             ok = False
     stats["failures"] = counted
     known = {kf.get("key") for kf in vlib.known_findings() if kf.get("property") == "C09" and kf.get("status", "open") == "open"}
@@ -1259,6 +1365,7 @@ def check(c):
                   "model_classification_of_executed_calls": stats["classes"],
                   "listed_out_of_order_calls_executed": stats["ooo"],
                   "return_classes_observed": stats["returns"], "failure_classes": stats["failures"],
+                  "histories_on_passthrough_pool_flavour": stats.get("histories_on_passthrough_pool", 0),
                   "failing_histories": len(bad), "corpus_cases": ncorp})
 
 
